@@ -59,6 +59,22 @@ def _sym(*a):
     return _nps.has_sym(*a) or any(hasattr(x, "_dense") for x in a)
 
 
+def _clobber(arr, k, *flags):
+    """LAPACK semantics of overwrite_a / overwrite_b = True: the array handed in MAY be used as work space.  Modelled
+    as 'is destroyed' (entries replaced in place by fresh unconstrained symbols); whether the real library does it for
+    the given memory layout is settled by the replay."""
+    if not any(k.get(f) for f in flags):
+        return
+    base = arr._dense if hasattr(arr, "_dense") else arr
+    if not isinstance(base, _np.ndarray) or base.dtype != object:
+        return
+    c = _ctx.current()
+    c.stubs.add("LAPACK overwrite_* flag: the input array is modelled as destroyed")
+    from .scalars import sym
+    for i in _np.ndindex(*base.shape):
+        _np.ndarray.__setitem__(base, i, sym(c.fresh_name("ow")))
+
+
 # ------------------------------------------------------------------------------------------------
 def lu(a, permute_l=False, **k):
     import scipy.linalg as spla
@@ -290,3 +306,27 @@ def _arpack(A, k, M, sigma, OPinv, kind, mode, which='LM', extra=None):
     W = _np.asarray(W)[:k]
     Q = _np.asarray(Q)[:, :k]
     return wrap(_np.array(W, dtype=object)), wrap(_np.array(Q, dtype=object))
+
+
+def _with_overwrite(fn, *pairs):
+    """pairs: (positional index / keyword name of the array, flag name)."""
+    import functools
+
+    @functools.wraps(fn)
+    def wrapped(*a, **k):
+        res = fn(*a, **k)
+        for (pos, name, flag) in pairs:
+            arr = a[pos] if len(a) > pos else k.get(name)
+            if arr is not None and _sym(arr):
+                _clobber(arr, k, flag)
+        return res
+    return wrapped
+
+
+lu = _with_overwrite(lu, (0, "a", "overwrite_a"))
+cholesky = _with_overwrite(cholesky, (0, "a", "overwrite_a"))
+ldl = _with_overwrite(ldl, (0, "a", "overwrite_a"))
+qr = _with_overwrite(qr, (0, "a", "overwrite_a"))
+solve_triangular = _with_overwrite(solve_triangular, (1, "b", "overwrite_b"))
+eigh = _with_overwrite(eigh, (0, "a", "overwrite_a"), (1, "b", "overwrite_b"))
+eig = _with_overwrite(eig, (0, "a", "overwrite_a"), (1, "b", "overwrite_b"))
